@@ -22,7 +22,6 @@ import (
 	"io"
 	"strconv"
 
-	dtypeutils "github.com/siglens/siglens/pkg/common/dtypeutils"
 	"github.com/siglens/siglens/pkg/segment/query/iqr"
 	"github.com/siglens/siglens/pkg/segment/structs"
 	sutils "github.com/siglens/siglens/pkg/segment/utils"
@@ -118,16 +117,19 @@ const (
 	GREATER
 )
 
+// The comparison must be exact: treating values closer than a tolerance as
+// equal is not transitive (a ~ b, b ~ c, a < c), so less() would not be a
+// strict weak order and sorted/merged results could come back out of order.
 func compareFloat(a, b float64) compare {
-	if dtypeutils.AlmostEquals(a, b) {
-		return EQUAL
-	}
-
 	if a < b {
 		return LESS
 	}
 
-	return GREATER
+	if a > b {
+		return GREATER
+	}
+
+	return EQUAL
 }
 
 func compareString(a, b string) compare {
